@@ -143,4 +143,17 @@ static inline double nipals_wrong_axis_threshold(size_t n, double tol, double rh
   return t < 0.5 ? t : 0.5;
 }
 
+
+/* caller-provided output container in one of three states, chosen from the case index and a call counter (no draw from the case PRNG):
+   empty (initMatrix), allocated with the result's shape but holding stale values, allocated with another shape holding stale values.
+   A routine that fills its output through an accumulating kernel, or that resizes only when the shape differs, shows up in state 1. */
+static inline matrix *drv_out_matrix(vh_ctx *c, size_t r, size_t k, unsigned call)
+{
+  matrix *m; size_t i, j; unsigned how = (unsigned)(((unsigned long)c->idx * 2654435761UL + call * 40503UL) >> 7) % 3;
+  if (how == 0 || r == 0 || k == 0) { initMatrix(&m); return m; }
+  if (how == 1) { NewMatrix(&m, r, k); vh_obs("predictor_output_stale_same_shape", 1); } else { NewMatrix(&m, r + 1, k + 2); vh_obs("predictor_output_stale_other_shape", 1); }
+  for (i = 0; i < m->row; i++) for (j = 0; j < m->col; j++) m->data[i][j] = 7.25 + (double)i - 0.5 * (double)j;
+  return m;
+}
+
 #endif
